@@ -75,13 +75,17 @@ void AppendDomain(util::Serializer &dump, const std::string domain)
 }
 
 /// 从缓冲中提取domain，与AppendDomain()相反
-std::string FetchDomain(util::Deserializer &parser)
+/**
+ * \return  false   数据不完整或压缩指针指向包外，domain 不可用
+ */
+bool FetchDomain(util::Deserializer &parser, std::string &domain)
 {
     std::ostringstream oss;
     bool first = true;
     for (;;) {
         uint8_t len = 0;
-        parser >> len;
+        if (!parser.fetch(len))
+            return false;
         if (len == 0)
             break;
 
@@ -92,20 +96,25 @@ std::string FetchDomain(util::Deserializer &parser)
         //! 处理压缩的字串
         if ((len & 0xc0) == 0xc0) {
             uint8_t offset_low = 0;
-            parser >> offset_low;
+            if (!parser.fetch(offset_low))
+                return false;
             uint16_t offset = (len & 0x3f) << 8 | offset_low;
             util::Deserializer sub_parser(parser);
-            sub_parser.set_pos(offset);
-            oss << FetchDomain(sub_parser);
+            std::string sub_domain;
+            if (!sub_parser.set_pos(offset) || !FetchDomain(sub_parser, sub_domain))
+                return false;
+            oss << sub_domain;
             break;
         } else {
             char str[len + 1];
-            parser.fetch(str, len);
+            if (!parser.fetch(str, len))
+                return false;
             str[len] = '\0';
             oss << str;
         }
     }
-    return oss.str();
+    domain = oss.str();
+    return true;
 }
 
 }
@@ -214,8 +223,10 @@ void DnsRequest::onUdpRecv(const void *data_ptr, size_t data_size, const SockAdd
     RECORD_SCOPE();
     util::Deserializer parser(data_ptr, data_size);
 
-    uint16_t req_id, flags;
-    parser >> req_id >> flags;
+    //! 任何一次读取失败都说明数据包不完整，直接丢弃，等待其它服务器的回复或超时
+    uint16_t req_id = 0, flags = 0;
+    if (!parser.fetch(req_id) || !parser.fetch(flags))
+        return;
 
     Request *req = findRequest(req_id);
     if (req == nullptr)
@@ -230,8 +241,12 @@ void DnsRequest::onUdpRecv(const void *data_ptr, size_t data_size, const SockAdd
     Result result;
 
     if (rcode == 0) {   //! 正常
-        uint16_t qd_count, an_count, ns_count, ar_count;
-        parser >> qd_count >> an_count >> ns_count >> ar_count;
+        uint16_t qd_count = 0, an_count = 0, ns_count = 0, ar_count = 0;
+        if (!parser.fetch(qd_count) || !parser.fetch(an_count) ||
+            !parser.fetch(ns_count) || !parser.fetch(ar_count))
+            return;
+
+        std::string domain;
 
 #if 0
         LogTrace("id:%d, flags:%04x, qd_count:%d, an_count:%d, ns_count:%d, ar_count:%d",
@@ -240,36 +255,43 @@ void DnsRequest::onUdpRecv(const void *data_ptr, size_t data_size, const SockAdd
 
         //! 解析Question字段
         for (uint16_t i = 0; i < qd_count; ++i) {
-            FetchDomain(parser);
-            uint16_t dns_type, dns_class;
-            parser >> dns_type >> dns_class;
+            uint16_t dns_type = 0, dns_class = 0;
+            if (!FetchDomain(parser, domain) ||
+                !parser.fetch(dns_type) || !parser.fetch(dns_class))
+                return;
         }
 
         for (uint16_t i = 0; i < an_count; ++i) {
-            FetchDomain(parser);
-            uint16_t an_type, an_class, an_len;
-            uint32_t an_ttl;
-            parser >> an_type >> an_class >> an_ttl >> an_len;
+            uint16_t an_type = 0, an_class = 0, an_len = 0;
+            uint32_t an_ttl = 0;
+            if (!FetchDomain(parser, domain) ||
+                !parser.fetch(an_type) || !parser.fetch(an_class) ||
+                !parser.fetch(an_ttl) || !parser.fetch(an_len))
+                return;
 
 #if 0
             LogTrace("type:%d, class:%d, ttl:%d, len:%d", an_type, an_class, an_ttl, an_len);
 #endif
             if (an_type == DNS_TYPE_A) {
-                uint32_t ip_value;
+                uint32_t ip_value = 0;
                 auto old_endian = parser.setEndian(util::Endian::kLittle);
-                parser >> ip_value;
+                bool is_ok = parser.fetch(ip_value);
                 parser.setEndian(old_endian);
+                if (!is_ok)
+                    return;
                 A a = { an_ttl, IPAddress(ip_value) };
                 result.a_vec.push_back(a);
 
             } else if (an_type == DNS_TYPE_CNAME) {
-                std::string domain = FetchDomain(parser);
+                if (!FetchDomain(parser, domain))
+                    return;
                 CNAME cname = { an_ttl, DomainName(domain) };
                 result.cname_vec.push_back(cname);
 
             } else {
                 LogNotice("unknow type:%d", an_type);
-                parser.skip(an_len);
+                if (!parser.skip(an_len))
+                    return;
             }
         }
     } else {
